@@ -30,10 +30,11 @@ RULE = ('cases: (a) bit patterns -- all 2**16 half patterns exhaustively in both
         'from boundary patterns of all three formats, floats, raw (s,e,m,p) tuples and results of earlier operations, judged as '
         'Fractions; (d) FixedPoint helper on all formats (1,iw<=4,fw<=4): all operand pairs when w<=6 (quick) / all formats (thorough), '
         'boundary x boundary + random otherwise.  evaluations = helper calls judged.  A case is non-trivial when it is not the '
-        'all-zero pattern / value / operand pair; distinct by content (format, pattern | w, v | operand descriptors | format, x, y)')
+        'all-zero pattern / value / operand pair; distinct by content (format, pattern | w, v | operand descriptors | format, x, y); in the thorough tier only the '
+        'cases whose content hash is 0 mod 4 are registered, so distinct_nontrivial is a lower bound there (keeps the merged set small)')
 SHARDS = {'quick': 1, 'thorough': 16}
 TIMEOUT = {'quick': 600, 'thorough': 3000}
-MIN_NONTRIVIAL = {'quick': 50000, 'thorough': 500000}
+MIN_NONTRIVIAL = {'quick': 50000, 'thorough': 300000}
 
 FM = {'hp': ('<e', '<H', 5, 10), 'sp': ('<f', '<I', 8, 23), 'dp': ('<d', '<Q', 11, 52)}
 FMTS = ('hp', 'sp', 'dp')
@@ -696,6 +697,7 @@ def judge(case):
     return JUDGES[case['kind']](case)
 
 
+NT_SUBSAMPLE = 4     # thorough tier: only cases with content hash = 0 mod 4 are registered as distinct non-trivial (lower bound)
 PER_MECHANISM = 3   # unknown violations recorded per (key, classifier fields); the rest are counted, so that one
                     # mechanism cannot use up the 40-violation cap and hide a different one
 
@@ -750,7 +752,9 @@ def run_check(run, tier, seed, shard):
             run.ev(n)
             ncases += 1
             if nontrivial(case):
-                run.nt(key(case))
+                h = key(case)
+                if tier == 'quick' or h % NT_SUBSAMPLE == 0:
+                    run.nt(h)
             if viols:
                 nviol += len(viols)
                 report(run, case, viols)
@@ -768,15 +772,15 @@ def run_check(run, tier, seed, shard):
                 classes[c] = classes.get(c, 0) + 1
                 yield dict(kind='pattern', fmt=fmt, pattern=hex(v))
         sweep('patterns_' + fmt, counted(), lambda c: int(c['pattern'], 16) != 0,
-              lambda c: hash(('p', c['fmt'], c['pattern'])), 20011 if fmt == 'hp' else 7001)
+              lambda c: hash((1, FMTS.index(c['fmt']), int(c['pattern'], 16))), 20011 if fmt == 'hp' else 7001)
     run.extra['pattern_classes'] = classes
     if shard is None or tier == 'thorough':
         run.extra['half_patterns_exhaustive'] = True
     # (b) two's complement
-    sweep('twos_complement', c2_cases(tier, seed, shard), lambda c: c['v'] != 0, lambda c: hash(('c', c['w'], c['v'])), 997)
+    sweep('twos_complement', c2_cases(tier, seed, shard), lambda c: c['v'] != 0, lambda c: hash((2, c['w'], c['v'])), 997)
     # (c) FPNum arithmetic
     sweep('fpnum_arith', arith_cases(tier, seed, shard), lambda c: not (desc_is_zero(c['a']) and desc_is_zero(c['b'])),
-          lambda c: hash(('a', repr(c['a']), repr(c['b']))), 1999)
+          lambda c: int(stable_hash([c['a'], c['b']]), 16), 1999)
     # (d) FixedPoint helper
     fmts_seen = {}
 
@@ -785,7 +789,7 @@ def run_check(run, tier, seed, shard):
             k = '1.%d.%d' % (c['iw'], c['fw'])
             fmts_seen[k] = fmts_seen.get(k, 0) + 1
             yield c
-    sweep('fixedpoint_helper', fx(), lambda c: c['x'] != 0 or c['y'] != 0, lambda c: hash(('f', c['iw'], c['fw'], c['x'], c['y'])), 20011)
+    sweep('fixedpoint_helper', fx(), lambda c: c['x'] != 0 or c['y'] != 0, lambda c: hash((4, c['iw'], c['fw'], c['x'], c['y'])), 20011)
     run.extra['fixedpoint_formats'] = fmts_seen
     run.extra['sections'] = sect
     for name, s in sect.items():
